@@ -147,7 +147,6 @@ func c39Pos(fn *ssa.Function, in ssa.Instruction) token.Pos {
 	return fn.Pos()
 }
 
-
 // c39Walk is one `for { … proc = proc.<field> }` loop over a φ of *lang.Process.
 type c39Walk struct {
 	c     *Ctx
@@ -707,7 +706,6 @@ func (c *Ctx) c39Callers() {
 	}
 	c.MinCount(rule, "callers of breakUpwards", n, 2)
 }
-
 
 // ---------------------------------------------------------------- R39d
 
